@@ -661,7 +661,7 @@ HCcreate(int32 file_id, uint16 tag, uint16 ref, comp_model_t model_type, model_i
 
     /* clear error stack and validate args */
     HEclear();
-    file_rec = HAatom_object(file_id);
+    file_rec = HIfile_rec(file_id);
     if (BADFREC(file_rec) || SPECIALTAG(tag) || (special_tag = MKSPECIALTAG(tag)) == DFTAG_NULL)
         HRETURN_ERROR(DFE_ARGS, FAIL);
 
@@ -801,7 +801,7 @@ HCPgetcompinfo(int32 file_id, uint16 data_tag, uint16 data_ref,
     aid = Hstartread(file_id, data_tag, data_ref);
 
     /* get the access_rec pointer */
-    access_rec = HAatom_object(aid);
+    access_rec = HIaccess_rec(aid);
     if (access_rec == NULL)
         HGOTO_ERROR(DFE_ARGS, FAIL);
 
@@ -1390,7 +1390,7 @@ HCPgetcomptype(int32 file_id, uint16 data_tag, uint16 data_ref, /* IN: tag/ref o
     HEclear();
 
     /* convert file id to file rec and check for validity */
-    file_rec = HAatom_object(file_id);
+    file_rec = HIfile_rec(file_id);
     if (BADFREC(file_rec))
         HGOTO_ERROR(DFE_ARGS, FAIL);
 
@@ -1518,7 +1518,7 @@ HCPgetdatasize(int32 file_id, uint16 data_tag, uint16 data_ref, /* IN: tag/ref o
     HEclear();
 
     /* convert file id to file rec and check for validity */
-    file_rec = HAatom_object(file_id);
+    file_rec = HIfile_rec(file_id);
     if (BADFREC(file_rec))
         HGOTO_ERROR(DFE_ARGS, FAIL);
 
